@@ -342,7 +342,8 @@ def expected_probes(prop, seen):
 
 PROBES_EXPECTED = {
     'C09': ('passed_out_then_played', 'played_then_passed_out', 'dummy_on_lead'),
-    'C08': ('passed_out', 'redoubled', 'doubled', 'dummy_on_lead'),
+    'C08': ('passed_out', 'redoubled', 'doubled', 'dummy_on_lead', 'tricks_with_3_ruffs',
+            'overruff_then_lower_ruff_above_first'),
     'C10': ('dummy_on_lead', 'passed_out'),
     'C11': ('dummy_on_lead', 'passed_out', 'redoubled'),
 }
